@@ -214,6 +214,8 @@ func exec(op string) vlib.Res {
 		return execFingerprint()
 	case "cache view":
 		return execCacheView(f[2])
+	case "msg serve":
+		return execServe(f)
 	case "lib room":
 		return execLibRoom()
 	case "msg cache":
@@ -909,7 +911,7 @@ func flagsStr(v int) string {
 	return sb.String()
 }
 
-var profiles = []string{"plain", "plain", "types", "types", "optmix", "bad", "rcode", "names", "size", "size", "qcount", "zero", "hdr", "svcbopt", "bigopt"}
+var profiles = []string{"plain", "plain", "types", "types", "optmix", "bad", "rcode", "names", "size", "size", "qcount", "zero", "hdr", "svcbopt", "bigopt", "cdn", "cdn"}
 
 func gen(r *vlib.R, n int, tier string, emit func(string)) {
 	count := 0
@@ -1006,6 +1008,14 @@ func gen(r *vlib.R, n int, tier string, emit func(string)) {
 				in = "t"
 			}
 			e(fmt.Sprintf("msg write %s %s lib=%s", dp, in, libPack(build(seed, p).m)))
+		}
+		if r.Chance(1, 2) {
+			dp := "t"
+			if r.Chance(1, 6) {
+				dp = "f"
+			}
+			b := build(seed, p)
+			e(fmt.Sprintf("msg serve %s %s lib=%s ulen=%d", vlib.Pick(r, []string{"ub", "ub", "ud", "ts", "tl"}), dp, libPack(build(seed, p).m), b.ulen()))
 		}
 		if r.Chance(1, 5) {
 			e("msg fingerprint")
